@@ -3,7 +3,7 @@ use generic_array::GenericArray;
 use lightmotif::abc::{Alphabet, Background, Dna, Protein, Pseudocounts};
 use lightmotif::dense::DenseMatrix;
 use lightmotif::num::U32;
-use lightmotif::pwm::{CountMatrix, FrequencyMatrix};
+use lightmotif::pwm::{CountMatrix, FrequencyMatrix, ScoringMatrix, WeightMatrix};
 use lightmotif::seq::{EncodedSequence, StripedSequence};
 
 use crate::common::*;
@@ -16,8 +16,8 @@ pub const RULE: &str = "case = (alphabet, count data from random sequence sets o
 pub const REQUIRED: &[&str] = &[
     "alphabet.dna", "alphabet.protein", "source.from_sequences", "source.raw_counts", "pseudo.scalar", "pseudo.zero",
     "pseudo.per_symbol", "bg.uniform", "bg.dyadic", "bg.zero_entries", "bg.tiny_positive_entry", "bg.from_counts", "bg.from_sequence",
-    "base.2", "base.10", "base.e", "base.3.7", "route.one_step", "route.two_step", "route.rescale",
-    "invalid.unequal_lengths", "invalid.freq_row_sum", "invalid.bg_out_of_range", "invalid.bg_negative_sum_one", "invalid.bg_sum", "invalid.bg_nan",
+    "base.2", "base.10", "base.e", "base.3.7", "route.one_step", "route.two_step", "route.rescale", "route.from_impls",
+    "invalid.unequal_lengths", "invalid.unequal_lengths.empty_member", "invalid.unequal_lengths.leading_empty", "invalid.freq_row_sum", "invalid.bg_out_of_range", "invalid.bg_negative_sum_one", "invalid.bg_sum", "invalid.bg_nan",
     "windows.bracketed", "class.neg_inf_score",
 ];
 
@@ -116,14 +116,44 @@ fn run_case<A: Alphabet>(case: u64, rng: &mut Rng, rep: &mut Report, alpha: &str
         // unequal lengths must be rejected
         if n >= 2 {
             let mut bad = seqs.clone();
-            let j = rng.below(n);
-            if rng.chance(0.5) || w == 1 {
+            // one odd sequence anywhere (first, last, middle): longer, shorter, or empty; or a
+            // run of empty sequences in front of the set
+            let mut j = match rng.below(4) {
+                0 => 0,
+                1 => n - 1,
+                _ => rng.below(n),
+            };
+            match rng.below(5) {
+                0 => bad[j].push(0),
+                1 if w > 1 => {
+                    bad[j].pop();
+                }
+                2 => {
+                    bad[j].clear();
+                    rep.cover("invalid.unequal_lengths.empty_member");
+                }
+                3 => {
+                    let e = rng.range(1, 3).min(n - 1);
+                    for s in bad.iter_mut().take(e) {
+                        s.clear();
+                    }
+                    j = 0;
+                    rep.cover("invalid.unequal_lengths.leading_empty");
+                }
+                _ => {
+                    let extra = rng.range(1, 40);
+                    bad[j].extend(std::iter::repeat(1u8).take(extra));
+                }
+            }
+            if bad[j].len() == w {
                 bad[j].push(0);
-            } else {
-                bad[j].pop();
             }
             rep.cover("invalid.unequal_lengths");
             let encs: Vec<EncodedSequence<A>> = bad.iter().map(|s| encoded::<A>(s)).collect();
+            // the FromIterator route must reject the set as well
+            if let Ok(Ok(_)) = guard(|| encs.iter().cloned().collect::<Result<CountMatrix<A>, _>>()) {
+                fail(rep, "c09.accepts_invalid", format!("collect::<Result<CountMatrix, _>>() accepted sequences of unequal lengths (sequence {} has length {}, the others {})", j, bad[j].len(), w), &notes, J::Null);
+            }
             match guard(|| CountMatrix::<A>::from_sequences(encs.iter())) {
                 Ok(Err(_)) => {}
                 Ok(Ok(_)) => fail(rep, "c09.accepts_invalid", format!("from_sequences accepted sequences of unequal lengths (sequence {} has length {})", j, bad[j].len()), &notes, J::Null),
@@ -432,6 +462,47 @@ fn run_case<A: Alphabet>(case: u64, rng: &mut Rng, rep: &mut Report, alpha: &str
         if !rel_close(rescaled.background().frequencies()[j] as f64, bgv[j] as f64, 1e-6) || !rel_close(weight.background().frequencies()[j] as f64, bgv[j] as f64, 1e-6) {
             fail(rep, "c09.background", "the weight matrix does not carry the background it was built with".into(), &notes, J::Null);
             return;
+        }
+    }
+
+    // ---- conversion impls: From<WeightMatrix> for ScoringMatrix (= to_scoring) and the way back,
+    // From<ScoringMatrix> for WeightMatrix (weight = 2^score, the background kept)
+    {
+        let res = guard(|| {
+            let s_from: ScoringMatrix<A> = ScoringMatrix::from(weight.clone());
+            let w_back: WeightMatrix<A> = WeightMatrix::from(two_step_b2.clone());
+            (s_from, w_back)
+        });
+        match res {
+            Err(p) => {
+                fail(rep, &format!("c09.panic:{}", panic_site(&p)), format!("panic in the From conversions: {}", p), &notes, J::Null);
+                return;
+            }
+            Ok((s_from, w_back)) => {
+                rep.cover("route.from_impls");
+                for i in 0..w {
+                    for j in 0..k {
+                        let a = s_from.matrix()[i][j];
+                        let b = two_step_b2.matrix()[i][j];
+                        if !(a == b || (a.is_nan() && b.is_nan())) {
+                            fail(rep, "c09.score", format!("ScoringMatrix::from(weight)[{}][{}] = {} but weight.to_scoring() gives {}", i, j, a, b), &notes, J::Null);
+                            return;
+                        }
+                        let got = w_back.matrix()[i][j] as f64;
+                        let expect = weight.matrix()[i][j] as f64;
+                        if !rel_close(got, expect, 2e-5) {
+                            fail(rep, "c09.weight", format!("WeightMatrix::from(scoring)[{}][{}] = {}, the weight whose logarithm that score is: {}", i, j, got, expect), &notes, J::Null);
+                            return;
+                        }
+                    }
+                }
+                for j in 0..k {
+                    if !rel_close(w_back.background().frequencies()[j] as f64, bgv[j] as f64, 1e-6) || !rel_close(s_from.background().frequencies()[j] as f64, bgv[j] as f64, 1e-6) {
+                        fail(rep, "c09.background", "a From conversion between weight and scoring matrices lost the background".into(), &notes, J::Null);
+                        return;
+                    }
+                }
+            }
         }
     }
 
